@@ -112,6 +112,56 @@ theorem coo_adjoint (nnz : ℕ) (val : ℕ → ℝ) (row col : ℕ → ℕ) (v w
   intro k _
   ring
 
+/-- A4: rows/cols kernels with indicator sums (the exact shape of the pyvc contracts):
+    fwd  y_i = Σ_k [rows k = i] val k * v (cols k),  rev  x_j = Σ_k [cols k = j] val k * w (rows k). -/
+theorem coo_adjoint_ind (r c nnz : ℕ) (val : ℕ → ℝ) (rows cols : ℕ → ℕ) (v w : ℕ → ℝ)
+    (hr : ∀ k ∈ range nnz, rows k ∈ range r) (hc : ∀ k ∈ range nnz, cols k ∈ range c) :
+    ∑ i ∈ range r, w i * (∑ k ∈ range nnz, if rows k = i then v (cols k) * val k else 0) =
+    ∑ j ∈ range c, (∑ k ∈ range nnz, if cols k = j then w (rows k) * val k else 0) * v j := by
+  have lhs : ∑ i ∈ range r, w i * (∑ k ∈ range nnz, if rows k = i then v (cols k) * val k else 0) =
+      ∑ k ∈ range nnz, w (rows k) * (v (cols k) * val k) := by
+    simp_rw [mul_sum]
+    rw [sum_comm]
+    apply sum_congr rfl
+    intro k hk
+    simp_rw [mul_ite, mul_zero]
+    rw [sum_ite_eq (range r) (rows k) (fun i => w i * (v (cols k) * val k))]
+    simp [hr k hk]
+  have rhs : ∑ j ∈ range c, (∑ k ∈ range nnz, if cols k = j then w (rows k) * val k else 0) * v j =
+      ∑ k ∈ range nnz, (w (rows k) * val k) * v (cols k) := by
+    simp_rw [sum_mul]
+    rw [sum_comm]
+    apply sum_congr rfl
+    intro k hk
+    simp_rw [ite_mul, zero_mul]
+    rw [sum_ite_eq (range c) (cols k) (fun j => w (rows k) * val k * v j)]
+    simp [hc k hk]
+  rw [lhs, rhs]
+  apply sum_congr rfl
+  intro k _
+  ring
+
+/-- A5: data transfer.  fwd gathers in[in_k] = out[out_k]; rev scatter-adds
+    out_j += Σ_k [out_k = j] in[in_k].  Same 0/1 operator, transposed. -/
+theorem transfer_adjoint (no m : ℕ) (ini outi : ℕ → ℕ) (v w : ℕ → ℝ)
+    (ho : ∀ k ∈ range m, outi k ∈ range no) :
+    ∑ k ∈ range m, w (ini k) * v (outi k) =
+    ∑ j ∈ range no, (∑ k ∈ range m, if outi k = j then w (ini k) else 0) * v j := by
+  simp_rw [sum_mul]
+  rw [sum_comm]
+  apply sum_congr rfl
+  intro k hk
+  simp_rw [ite_mul, zero_mul]
+  rw [sum_ite_eq (range no) (outi k) (fun j => w (ini k) * v j)]
+  simp [ho k hk]
+
+/-- A6: diagonal kernels are self-adjoint. -/
+theorem diag_adjoint (n : ℕ) (d v w : ℕ → ℝ) :
+    ∑ i ∈ range n, w i * (d i * v i) = ∑ i ∈ range n, (d i * w i) * v i := by
+  apply sum_congr rfl
+  intro i _
+  ring
+
 /-- I1 (array2slice): constant differences give the closed form of an arithmetic progression. -/
 theorem ap_closed_form (n : ℕ) (a : ℕ → ℤ) (s : ℤ)
     (h : ∀ k, k + 1 < n → a (k + 1) - a k = s) :
